@@ -635,7 +635,7 @@ def _const_int(e):
     return isinstance(e, ast.Constant) and isinstance(e.value, int) and not isinstance(e.value, bool)
 
 
-def proves_depth(fc, X, D, at):
+def proves_depth(fc, X, D, at, _depth=0):
     """Is D (AST) the depth of cell X at CFG node `at`?  Returns (ok, how)."""
     xs, dsrc = _src(X), _src(D)
     # (a) D is X's own depth
@@ -670,6 +670,14 @@ def proves_depth(fc, X, D, at):
                 for m, rd in dd:
                     if together(fc, n, m):
                         twin = (m, rd)
+                if twin is None and r[0] == "assign" and isinstance(r[1], ast.Name) and r[1].id != xs and _depth < 3:
+                    # X = Y: a copy - X has the depth D at this point if Y has (and D is what it was when Y got it)
+                    ok2, how2 = proves_depth(fc, r[1], D, n, _depth + 1)
+                    if ok2:
+                        dm, _e = fc.reaching(dsrc, n)
+                        used |= {m2 for m2, _r in dm}
+                        continue
+                    return False, "%s is a copy of %s (line %s), whose depth is not %s: %s" % (xs, r[1].id, n.line, dsrc, how2)
                 if twin is None:
                     return False, "definition of %s at line %s has no accompanying definition of %s" % (xs, n.line, dsrc)
                 m, rd = twin
